@@ -131,15 +131,15 @@ _OWN = {}
 
 
 def _own_names(fn):
-    o = _OWN.get(fn.id)
+    o = _OWN.get((id(fn), fn.id))
     if o is None:
-        o = _OWN[fn.id] = {x.get('name') for x in fn.all_nodes() if x['k'] == 'VarDecl'} | {q.get('name') for q in fn.params}
+        o = _OWN[(id(fn), fn.id)] = {x.get('name') for x in fn.all_nodes() if x['k'] == 'VarDecl'} | {q.get('name') for q in fn.params}
     return o
 
 
 def single_def(fn, vid):
     """the defining expression of a local that is defined exactly once (VarDecl init, never written again)"""
-    key = (fn.id, vid)
+    key = (id(fn), fn.id, vid)
     if key in _SD:
         return _SD[key]
     init = None
@@ -163,7 +163,7 @@ def reaching_def(fn, use):
     r = use.get('ref') or {}
     if r.get('k') != 'Local':
         return None
-    key = (fn.id, use['i'])
+    key = (id(fn), fn.id, use['i'])
     if key in _RD:
         return _RD[key]
     vid = r['id']
